@@ -602,4 +602,66 @@ MUTANTS += [
      "expect": [("C02", "C02|R3")]},
 ]
 
+MUTANTS += [
+    {"name": "c01-remove-always-true",
+     "edits": [("src/cas.rs",
+                """            Ok(true)
+        } else {
+            Ok(false)
+        }""",
+                """            Ok(true)
+        } else {
+            Ok(true)
+        }""")],
+     "expect": [("C01", "C01|R1")]},
+    {"name": "c01-remove-ignores-apply-error",
+     "edits": [("src/cas.rs",
+                """            self.index.apply_remove_op(vec![key.clone()], &delete_fn).map_err(LibError::Index)?;
+            Ok(true)""",
+                """            let _ = self.index.apply_remove_op(vec![key.clone()], &delete_fn).map_err(LibError::Index);
+            Ok(true)""")],
+     "expect": [("C01", "C01|R1")]},
+    {"name": "c01-size-is-key-length",
+     "edits": [("src/transaction.rs",
+                """IntentMeta { blob_hash, blob_size: self.size })""",
+                """IntentMeta { blob_hash, blob_size: self.key.to_key_bytes_owned().len() as u64 })""")],
+     "expect": [("C01", "C01|R2")]},
+    {"name": "c01-get-size-wrong-field",
+     "edits": [("src/cas.rs",
+                """        self.with_blob_item(key, |item| Ok(item.blob_size))""",
+                """        self.with_blob_item(key, |item| Ok(item.blob_hash.0.len() as u64))""")],
+     "expect": [("C01", "C01|R3")]},
+    {"name": "c01-open-error-means-absent",
+     "edits": [("src/cas.rs",
+                """            let file = self.cas_manager.open_blob(&item.blob_hash);
+            (item, file)""",
+                """            let Ok(file) = self.cas_manager.open_blob(&item.blob_hash) else {
+                return Ok(None);
+            };
+            (item, Ok::<File, CasManagerError>(file))""")],
+     "expect": [("C01", "C01|R3")]},
+    {"name": "c01-remove-skips-first-key",
+     "edits": [("src/index/state.rs",
+                """                for key in keys {""",
+                """                for key in keys.iter().skip(1) {""")],
+     "expect": [("C01", "C01|R2")]},
+    {"name": "c01-remove-stops-at-absent-key",
+     "edits": [("src/index/state.rs",
+                """                for key in keys {
+                    if let Some(item) = self.key_to_hash.remove(key)""",
+                """                for key in keys {
+                    if !self.key_to_hash.contains_key(key) {
+                        break;
+                    }
+                    if let Some(item) = self.key_to_hash.remove(key)""")],
+     "expect": [("C01", "C01|R2")]},
+    {"name": "c01-range-count-from-second-scan",
+     "edits": [("src/cas.rs",
+                """        let keys_to_remove_count = keys_to_remove.len();
+""",
+                """        let keys_to_remove_count = self.index.read_state().len();
+""")],
+     "expect": [("C01", "C01|R1")]},
+]
+
 BENIGN = []
